@@ -15,6 +15,7 @@ import (
 	"fmt"
 	"go/format"
 	"regexp"
+	"strings"
 
 	"github.com/a-h/templ/generator"
 	parser "github.com/a-h/templ/parser/v2"
@@ -65,6 +66,11 @@ func Gen(src string) (goText string, err error) {
 	if perr != nil {
 		return "", &GenError{StageParse, perr}
 	}
+	if strings.TrimSpace(t.Package.Expression.Value) == "" {
+		// templ parses a file without a package clause, but what it generates
+		// has none either and cannot compile: outside the quantifier
+		return "", &GenError{StageParse, errNoPackage}
+	}
 	var b bytes.Buffer
 	if _, gerr := generator.Generate(t, &b, generator.WithFileName("x.templ")); gerr != nil {
 		return "", &GenError{StageGenerate, gerr}
@@ -84,6 +90,7 @@ func Gen(src string) (goText string, err error) {
 var (
 	reEmptyExpr  = regexp.MustCompile(`templ\.JoinStringErrs\(\s*(/\*[^*]*\*/\s*|//[^\n]*\n\s*)*\)`)
 	errEmptyExpr = fmt.Errorf("string expression without an expression")
+	errNoPackage = fmt.Errorf("no package clause")
 )
 
 // reErrPos matches the source position inside a templ.Error literal as the
